@@ -263,7 +263,7 @@ func runRwInner(s RwScript) (bool, string, *vt.Finding) {
 	}
 	want, err, pan := decode(s.JSON)
 	if pan != "" {
-		return false, key, vt.Failf("panic/unmarshal-json/"+s.Kind, "UnmarshalJSON panics on marshaled text: %s", pan)
+		return false, key, vt.Failf("panic/json-decode-or-proto-encode/"+s.Kind, "UnmarshalJSON of marshaled text (or MarshalProto of its result) panics: %s", pan)
 	}
 	if err != nil {
 		return false, key, vt.Failf("roundtrip/json/"+s.Kind+"/rejected", "UnmarshalJSON rejects what MarshalJSON produced: %v\n%s", err, cut(s.JSON))
@@ -347,5 +347,5 @@ func runRwInner(s RwScript) (bool, string, *vt.Finding) {
 }
 
 func TestJSONRewrite(t *testing.T) {
-	vt.Run(t, cRw, vt.N(12000, 400000), genRw, runRw)
+	vt.Run(t, cRw, vt.N(12000, 300000), genRw, runRw)
 }
